@@ -13,6 +13,17 @@ CLAIMED = {
    ref="DESIGN.md §8 C02, §7 M1",
    note="Lean kernel + {propext, Classical.choice, Quot.sound}; the hand-written model is tied to the code only by the differential run (sampled); usize = 64 bit",
    technique="Lean 4 proof (induction over chunks with a strict-prefix invariant) + differential correspondence"),
+ "C07": dict(
+   text="Lean 4 theorems over the sequential semantics of an executable model of events.rs (three FIFO channels + "
+        "key-sorted timer map, logical time): priority first; else the expired timer with the least (deadline, "
+        "scheduling order) key; else the oldest plain event; unexpired timers are transparent; non-blocking forms "
+        "return none iff nothing is deliverable; receive_timeout/receive return exactly what try_receive returns at "
+        "the first instant of their window at which that is something; holds on every reachable queue (sortedness "
+        "invariant over all histories). Tie: recorded single-threaded histories on a logical time grid validated "
+        "against the model.",
+   ref="DESIGN.md §8 C07, §7 M3",
+   note="Lean kernel + standard axioms; crossbeam-channel FIFO/select semantics assumed; timing on a 4 ms grid with 1 ms margins (late runs re-run)",
+   technique="Lean 4 proof (case analysis on the model + sortedness invariant by induction over histories) + trace validation"),
  "C14": dict(
    text="Lean 4 theorems over a model of the ResourceId bit layout (Nat with explicit 2^64 wrap, the Rust mask/shift "
         "expressions transcribed): field round trip, the accessors partition all 64 bits for every raw value, injectivity, "
